@@ -502,7 +502,7 @@ def check_sweep_and_cycle(P, ctx):
     for o in ctx.obs[before:]:
         o['rule'] = 'C01.sweep-guard'
     ctx.floors.pop(('C06.sweep-once', ctx.config), None)
-    ctx.floor('C01.sweep-guard', 4)
+    ctx.floor('C01.sweep-guard', 6)
     # mark before sweep
     rule = 'C01.mark-before-sweep'
     u = P.units['src/GC.c']
@@ -732,6 +732,8 @@ def run(ctx, load):
     check_container_marks(P, ctx)
     check_sweep_and_cycle(P, ctx)
     check_root_flag(P, ctx)
+    from .rules_c17 import check_entry_moves_whole
+    check_entry_moves_whole(P, ctx, rule='C01.root-flag-travels')
     check_range_filter(P, ctx)
     check_stack_bottom(P, ctx)
     check_recursion(P, ctx)
